@@ -18,12 +18,14 @@ type ring struct {
 	buf    []byte
 	r, w   int64 // total bytes read / written
 	closed bool  // no more bytes will come
+	gone   bool  // the reading end has left: bytes written from now on go nowhere (the writer is not told)
 	waiter int   // task blocked reading, -1 none
 	writes int64
 }
 
 // Conn is one endpoint of a simulated duplex connection between two tasks.
 type Conn struct {
+	left    bool // this endpoint was closed by its owner
 	s       *Sched
 	rx, tx  *ring
 	id      int
@@ -92,8 +94,17 @@ func (c *Conn) Read(p []byte) (int, error) {
 func (c *Conn) Write(p []byte) (int, error) {
 	s := c.s
 	s.Yield(1)
-	if c.tx.closed {
+	if c.left || (c.tx.closed && !c.tx.gone) {
 		return 0, errClosedConn
+	}
+	if c.tx.gone {
+		// The peer has closed its end. Like on a real network the writer does
+		// not find out at once: the bytes are accepted and go nowhere. (A
+		// script in which one side leaves while the other is still inside its
+		// last Write call - the second, empty Write of a frame without payload
+		// - must not observe whether the close came first.)
+		s.dig.Add(uint64(c.id)<<40 | uint64(len(p))<<8 | 3)
+		return len(p), nil
 	}
 	if int(c.tx.w-c.tx.r)+len(p) > ringCap {
 		panic("multi: simulated socket buffer overflow (session script not strictly request/response?)")
@@ -119,13 +130,20 @@ func (c *Conn) forceClose() {
 	c.s.makeRunnable(c.tx.waiter)
 }
 
-// Close is never called by confluent session scripts; it behaves like a real
-// close for completeness.
+// Close: this endpoint leaves (a client that vanishes in the middle of its
+// request, a sender that goes away inside a frame).
 //
 //go:norace
 func (c *Conn) Close() error {
 	c.s.Yield(1)
-	c.forceClose()
+	c.left = true
+	// The peer reads what is in flight and then the end of the stream; what
+	// it still writes is accepted and dropped.
+	c.tx.closed = true
+	c.rx.gone = true
+	c.rx.closed = true
+	c.s.makeRunnable(c.tx.waiter)
+	c.s.makeRunnable(c.rx.waiter)
 	return nil
 }
 
